@@ -86,6 +86,8 @@ def run(ctx):
     pending = not os.path.exists(core.COQ + "/Props/C20.v")
     if not pending:
         core.check_props(ctx, ["Props/C20.v"])
+        from vlib import ties2
+        ties2.run_flag(ctx, "--dirtext", "Fun20.v", "Tie/C20.v")
     cases = pinned_cases() + [gen_case(ctx.rng) for _ in range(n)]
     reqs, impl, meta = [], [], []
     default_excl = list(in_toto.settings.ARTIFACT_EXCLUDE_PATTERNS)
